@@ -105,24 +105,51 @@ def valuesLoop (first : Bool) : List (List Char) → List Char
   | [] => []
   | v :: vs => (if first then [] else [',']) ++ (jsQuote v ++ valuesLoop false vs)
 
+/-! String literals of `to_array`, spelled as character lists (each one is tied to its text by an
+`example` below, so that proofs never have to unfold `String.toList`). -/
+
+/-- `{"locale":"` -/
+def litLocale : List Char := ['{', '"', 'l', 'o', 'c', 'a', 'l', 'e', '"', ':', '"']
+/-- `","id":"` -/
+def litId : List Char := ['"', ',', '"', 'i', 'd', '"', ':', '"']
+/-- `","values":[` -/
+def litValues : List Char := ['"', ',', '"', 'v', 'a', 'l', 'u', 'e', 's', '"', ':', '[']
+/-- `","id":null,"values":[` -/
+def litIdNull : List Char := ['"', ',', '"', 'i', 'd', '"', ':', 'n', 'u', 'l', 'l', ',', '"', 'v', 'a', 'l', 'u', 'e', 's', '"', ':', '[']
+/-- `]}` -/
+def litClose : List Char := [']', '}']
+/-- `window.__LEPTOS_I18N_TRANSLATIONS` -/
+def globalName : List Char := ['w', 'i', 'n', 'd', 'o', 'w', '.', '_', '_', 'L', 'E', 'P', 'T', 'O', 'S', '_', 'I', '1', '8', 'N', '_', 'T', 'R', 'A', 'N', 'S', 'L', 'A', 'T', 'I', 'O', 'N', 'S']
+/-- `];` -/
+def litEnd : List Char := [']', ';']
+
+example : litLocale = "{\"locale\":\"".toList := by decide +kernel
+example : litId = "\",\"id\":\"".toList := by decide +kernel
+example : litValues = "\",\"values\":[".toList := by decide +kernel
+example : litIdNull = "\",\"id\":null,\"values\":[".toList := by decide +kernel
+example : litClose = "]}".toList := by decide +kernel
+example : globalName ++ [' ', '=', ' ', '['] = "window.__LEPTOS_I18N_TRANSLATIONS = [".toList := by decide +kernel
+example : litEnd = "];".toList := by decide +kernel
+
 /-- one iteration of the outer loop, after the separating comma.  `locale.as_str()` and the id
     string are pushed as they are. -/
 def unitBody (u : TUnit) : List Char :=
-  "{\"locale\":\"".toList ++ (u.locale ++
+  litLocale ++ (u.locale ++
     ((match u.id with
-      | some i => "\",\"id\":\"".toList ++ (i ++ "\",\"values\":[".toList)
-      | none => "\",\"id\":null,\"values\":[".toList) ++
-    (valuesLoop true u.values ++ "]}".toList)))
+      | some i => litId ++ (i ++ litValues)
+      | none => litIdNull) ++
+    (valuesLoop true u.values ++ litClose)))
 
 def unitsLoop (first : Bool) : List TUnit → List Char
   | [] => []
   | u :: us => (if first then [] else [',']) ++ (unitBody u ++ unitsLoop false us)
 
-def arrayPrefix : List Char := "window.__LEPTOS_I18N_TRANSLATIONS = [".toList
+/-- `window.__LEPTOS_I18N_TRANSLATIONS = [` -/
+def arrayPrefix : List Char := globalName ++ [' ', '=', ' ', '[']
 
 /-- `RegisterCtx::to_array`, for the entries of the map in the order the `HashMap` iterates them -/
 def toArray (entries : List TUnit) : List Char :=
-  arrayPrefix ++ (unitsLoop true entries ++ "];".toList)
+  arrayPrefix ++ (unitsLoop true entries ++ litEnd)
 
 /-! ### The former behaviours (for the witnesses of F15 / F16 only) -/
 
@@ -168,11 +195,11 @@ def oldValuesLoop (first : Bool) : List (List Char) → List Char
   | v :: vs => (if first then [] else [',']) ++ ('"' :: (v ++ ['"']) ++ oldValuesLoop false vs)
 
 def oldUnitBody (u : TUnit) : List Char :=
-  "{\"locale\":\"".toList ++ (u.locale ++
+  litLocale ++ (u.locale ++
     ((match u.id with
-      | some i => "\",\"id\":\"".toList ++ (i ++ "\",\"values\":[".toList)
-      | none => "\",\"id\":null,\"values\":[".toList) ++
-    (oldValuesLoop true u.values ++ "]}".toList)))
+      | some i => litId ++ (i ++ litValues)
+      | none => litIdNull) ++
+    (oldValuesLoop true u.values ++ litClose)))
 
 def oldUnitsLoop (first : Bool) : List TUnit → List Char
   | [] => []
@@ -180,6 +207,6 @@ def oldUnitsLoop (first : Bool) : List TUnit → List Char
 
 /-- `to_array` before F16: the value is pushed between two quotes as it is -/
 def oldToArray (entries : List TUnit) : List Char :=
-  arrayPrefix ++ (oldUnitsLoop true entries ++ "];".toList)
+  arrayPrefix ++ (oldUnitsLoop true entries ++ litEnd)
 
 end I18nVerif.Escape
